@@ -47,6 +47,10 @@ func runC02(c *Ctx) {
 		c.L.Record(core.Undecided, "C02.twin-skeleton", "netutil", "package", "-", "not found")
 		return
 	}
+	// the IPv6 scanner classifies bytes with fromHexByte: exactly the 22 hex
+	// digits, for all 256 bytes (shared with the ARPA codec, C04/C05)
+	c.L.Floor("C02.hex-table", 1)
+	c04HexTable(c, "C02")
 	pairs := [][2]string{{"ValidateHostnameLabel", "IsValidHostnameLabel"}, {"ValidateTLDLabel", "isValidTLDLabel"}, {"ValidateHostname", "IsValidHostname"}}
 	var samples []any
 	for _, pr := range pairs {
